@@ -230,6 +230,6 @@ func init() {
 		Assumptions:  []string{"names mentioned by a message are read back as maximal runs of the alphabet letters, which do not occur in the message templates", "ties between nearest names: any minimiser accepted", "threshold accepted with the name length in bytes or in characters"},
 		RequiredHits: []string{"missing-command", "suggestion", "enumeration", "used-parser"},
 		Bound:        [2]string{"name sets <=3 of names <=3 over 3 letters; words <=3 over 7 characters", "name sets <=3 of names <=3 over 4 letters; words <=4 over 8 characters"},
-		BudgetS:      [2]int{90, 1500},
+		BudgetS:      [2]int{170, 1500},
 	})
 }
